@@ -656,6 +656,8 @@ def monitor_names_complete(ctx, runs):
   token or the content of a string literal."""
   seen = set()
   bad = 0
+  for form in c16loc.FORMS:
+    ctx.hist.setdefault('names_complete form: ' + form, 0)      # a form that is never exercised shows as 0
   for r in runs:
     info = r['info']
     if 'formulas' not in info:
@@ -674,6 +676,10 @@ def monitor_names_complete(ctx, runs):
         ctx.bump('monitor:unparsable formula')
         continue
       mine = sorted(o.key() for o in occs if exists(o.table, o.col))
+      # per reference form: how many formulas exercised it (reported by the real discovery AND found by the locator)
+      rset = set(x for x in reported if exists(x[1], x[2]))
+      for form in set(o.form for o in occs if o.key() in rset):
+        ctx.bump('names_complete form: ' + form)
       # the occurrences behind the registered gaps (known findings) may or may not be reported
       allowed = set(o.key() for o in (loc_gaps.occurrences(tid, old) or []) if exists(o.table, o.col))
       real = sorted(x for x in reported if exists(x[1], x[2]))
@@ -744,6 +750,64 @@ def correspond(ctx):
                'name_eqb (pr_text (ren (rt_of rt) (rc_of rc) d self [] f)) new end', t4, 300,
                EXTRA_DEFS + ''.join('Definition %s : doc := %s.\n' % (v, k) for k, v in schemas.items()),
                'correspondence:ren (tree level) differs from the formula the engine wrote', [repr(x) for x in src4]))
+  # (5) the evaluation semantics itself, cell by cell: `cell` on the translated document against the engine's values,
+  #     before the renames on the document and after each rename on rename_doc of it (harness/c16eval.py)
+  from harness import c16eval
+  ev_terms, ev_src, n_cells, n_steps, skipped = [], [], 0, 0, 0
+  for _ in range(ctx.n(12, 220)):
+    seed = ctx.rng.randrange(1 << 30)
+    c = c16eval.build_case(seed, nb=10, nren=3)
+    if 'skipped' in c:
+      skipped += 1
+      continue
+    steps = []
+    for ren, cells in c['steps']:
+      srt, src = coq_renames(ren)
+      steps.append('(%s, %s, %s)' % (srt, src, c16eval.coq_cells(cells)))
+      n_cells += len(cells)
+    n_cells += len(c['cells'])
+    n_steps += len(c['steps'])
+    ev_terms.append('(cV %s %s %s)' % (c['doc'], c16eval.coq_cells(c['cells']), core.coq_list(steps)))
+    ev_src.append('eval tie seed %d: renames %r' % (seed, [r for r, _ in c['steps']]))
+  jobs.append(('evalcell', 'case_ok', ev_terms, ctx.n(6, 14), EXTRA_DEFS + c16eval.COQ_DEFS,
+               'correspondence:Model/Renames.v `cell` differs from the engine cell values', ev_src))
+  ctx.extra.update({'eval_tie_documents': len(ev_terms), 'eval_tie_cells': n_cells, 'eval_tie_rename_steps': n_steps,
+                    'eval_tie_skipped_documents': skipped})
+  ctx.bump('eval tie: formula cells compared', n_cells)
+  ctx.bump('eval tie: rename steps (cells re-compared on rename_doc)', n_steps)
+  # (6) retype_val: what RenameTable's Int detour does to alternative text in Ref / RefList cells (finding 4's model)
+  texts = ['2', '12', '007', '0', 'abc', 'x1', 'a2', '3x', 'None', '10'] + \
+          [str(ctx.rng.randint(0, 999)) for _ in range(ctx.n(4, 30))] + \
+          [''.join(ctx.rng.choice('ab1 x') for _ in range(3)).strip() or 'q' for _ in range(ctx.n(4, 30))]
+  def numeric(t):
+    try:
+      float(t)
+      return True
+    except ValueError:
+      return False
+  # the model covers unsigned decimal integers; other numeric spellings ('1e3', ' 3', '-1') are left out of the tie
+  texts = [t for t in dict.fromkeys(texts) if (t.isdigit() and t.isascii()) or not numeric(t)]
+  e, _ = G.new_doc()
+  G.apply(e, [['AddTable', 'R2', [{'id': 'B', 'type': 'Text', 'isFormula': False}]]])
+  G.apply(e, [['BulkAddRecord', 'R2', [None] * 2, {'B': ['x', 'y']}]])
+  G.apply(e, [['AddTable', 'Tt', [{'id': 'ref', 'type': 'Ref:R2', 'isFormula': False},
+                                  {'id': 'rl', 'type': 'RefList:R2', 'isFormula': False}]]])
+  G.apply(e, [['BulkAddRecord', 'Tt', [None] * len(texts), {'ref': list(texts), 'rl': list(texts)}]])
+  G.apply(e, [['RenameTable', 'R2', 'People']])
+  snap = G.snapshot(e, tables=['Tt'])['Tt']['cols']
+  rt_terms, rt_src = [], []
+  for i, t in enumerate(texts):
+    for kind, colid in (('CRef', 'ref'), ('CRefList', 'rl')):
+      try:
+        exp = c16eval.mval(snap[colid][i])
+      except c16eval.Untranslatable:
+        continue
+      rt_terms.append('(cY (%s %s) %s %s)' % (kind, zl('R2'), zl(t), exp))
+      rt_src.append('%s cell %r became %r' % (colid, t, snap[colid][i]))
+  jobs.append(('retype', 'fun c => match c with (ty, s, v) => val_seqb (retype_val ty (VStr s)) v end', rt_terms, 400,
+               EXTRA_DEFS + c16eval.COQ_DEFS + 'Definition cY (ty : ctyp) (s : text) (v : val) := (ty, s, v).\n',
+               'correspondence:retype_val differs from what RenameTable does to alternative text', rt_src))
+  ctx.extra['retype_cases'] = len(rt_terms)
   # the four families are independent: evaluate them side by side
   import concurrent.futures
   # (one after the other in the thorough tier, where each family already fills 8 coqc processes with its shards)
@@ -797,7 +861,13 @@ RULE = ('random acyclic documents (HistGen with formulas generated from trees in
         'colliding names, id/group/count/manualSort/gristHelper_ names; streams `clash` (tables named like a function) and '
         '`gaps` (comprehensions over reference lists) exercise the registered root causes. A case is non-trivial when the '
         'rename was applied, renamed at least one entity and rewrote at least one formula.')
-TRUSTED = ['Model/Renames.v eval: the semantics of the formula forms (hand-written; not compared with the engine cell by cell)',
+TRUSTED = ['Model/Renames.v `cell`/`eval` (hand-written) is compared with the engine cell by cell on generated documents '
+           '(Int/Text/Ref/RefList data, Any formulas over the model grammar, a summary table), before each rename on '
+           'the translated document and after it on rename_doc of it (harness/c16eval.py). Outside that domain it is '
+           'trusted: alt text, floats/dates, lookup keys of a type other than their column, list/record rich '
+           'comparisons, Record order across tables (depends on table names), manualSort orders other than row id',
+           'harness/c16eval.py translation engine document -> model doc (summary group membership is taken from the '
+           "engine's group cells)",
            'astroid name discovery (codebuilder.parse_grist_names): premise names_complete, monitored on every formula of '
            'the generated documents against harness/c16loc.py (stdlib ast/tokenize)',
            'CPython tokenisation of the patched text (premise of the text round trip)',
@@ -822,6 +892,9 @@ LEVEL_TEXT = ('Kernel-checked: for every document, formula, row and fuel, consis
               '(C16_group_rename_must_be_rejected); the engine rejects such renames (fix b90267a) and the search checks '
               'that the rejection leaves no trace.')
 LEVEL_NOTE = ('Kernel strength: name discovery (astroid) is an oracle whose completeness is a monitored premise; the '
-              'evaluation semantics is a hand-written model. Implementation-only findings (not in the model): tables '
-              'named like a function, gristHelper_ targets, alt text in reference columns on RenameTable (known); '
-              'renaming manualSort or a summary group column (fixed by b90267a, witnesses kept in the corpus).')
+              'evaluation semantics is a hand-written model compared with the engine cell by cell on generated '
+              'documents (before and after renames). Whole-document and history theorems: every cell of every table '
+              'after any acceptable sequence of renames. Alt text reinterpreted by RenameTable is a model-level refutation '
+              '(C16_refuted_alt_text_reinterpreted; positive theorem under no_alt_text). Implementation-only findings: '
+              'tables named like a function, gristHelper_ targets (known); renaming manualSort or a summary group column '
+              '(fixed by b90267a, witnesses kept in the corpus).')
